@@ -138,6 +138,10 @@ func (w *World) Run(x *simkit.Ctx) {
 	// a different amount, everybody votes a different value, a lock period later the voters with the
 	// least power vote again and leave
 	crowd := x.CfgInt("crowd", func(r *simkit.Rng) int { return r.Pick(9, 1) }) == 1
+	flipback := !crowd && x.CfgInt("flipback", func(r *simkit.Rng) int { return r.Pick(9, 1) }) == 1
+	if flipback {
+		hfmode = 0
+	}
 	if crowd {
 		nacc = x.CfgInt("crowdsize", func(r *simkit.Rng) int { return r.Range(31, 40) })
 		hfmode = 0
@@ -234,6 +238,16 @@ func (w *World) Run(x *simkit.Ctx) {
 		gen := func(r *simkit.Rng) *simkit.Step {
 			if crowd && e.blocks < 3 {
 				return e.crowdBlock(e.blocks)
+			}
+			if flipback && e.blocks < 2 {
+				// one block in which a parameter's winning value crosses the threshold twice and ends
+				// where it started: the only staker votes a new gas price, then a bigger staker
+				// arrives and votes the value in force
+				if e.blocks == 0 {
+					return &simkit.Step{Op: "block", V: 1, A: endCommit, X: []simkit.Step{{Op: "stake", A: 0, V: 8}}}
+				}
+				return &simkit.Step{Op: "block", V: 1, A: endCommit, X: []simkit.Step{
+					{Op: "votedao", A: 0, B: 2, C: 0}, {Op: "stake", A: 1, V: 24}, {Op: "votedao", A: 1, B: 2, C: 2}}}
 			}
 			return e.genBlock(r, nblocks, txper, drops == 1)
 		}
